@@ -473,6 +473,13 @@ namespace occa {
 
             if(pathSmnt.hasAttribute("inner")) {
               innerIndex = oklForSmnt.oklLoopIndex();
+              if ((innerIndex < 0) || (innerIndex > 2)) {
+                pathSmnt.printError("[@inner] loop index must be 0, 1 or 2"
+                                    " (at most 3 nested [@inner] loops)");
+                success = false;
+                addLaunchBoundsAttribute = false;
+                break;
+              }
               if(oklForSmnt.getIterationCount()->canEvaluate()) {
                 kernelInnerDims[innerIndex] = (int) oklForSmnt.getIterationCount()->evaluate();
               } else { 
